@@ -150,6 +150,8 @@ STRUCTURED = [
     ("const.dso_local_equivalent", "declare void @f()\n\n@g = global void ()* dso_local_equivalent @f\n", ["dso_local_equivalent @f"]),
     ("const.no_cfi", "declare void @f()\n\n@g = global void ()* no_cfi @f\n", ["no_cfi @f"]),
     ("expr.gep-inbounds", "@a = global [4 x i32] zeroinitializer\n@g = global i32* getelementptr inbounds ([4 x i32], [4 x i32]* @a, i64 0, i64 1)\n", ["getelementptr inbounds ([4 x i32], [4 x i32]* @a, i64 0, i64 1)"]),
+    ("expr.gep-inrange-first", "@a = global [4 x [4 x i8]] zeroinitializer\n@g = global i8* getelementptr inbounds ([4 x [4 x i8]], [4 x [4 x i8]]* @a, inrange i64 0, i64 1, i64 2)\n", ["@a, inrange i64 0, i64 1, i64 2)"]),
+    ("expr.gep-inrange-last", "@a = global [4 x [4 x i8]] zeroinitializer\n@g = global i8* getelementptr ([4 x [4 x i8]], [4 x [4 x i8]]* @a, i64 0, i64 1, inrange i64 2)\n", ["i64 0, i64 1, inrange i64 2)"]),
     ("expr.gep-inrange", "@a = global [4 x i32] zeroinitializer\n@g = global i32* getelementptr ([4 x i32], [4 x i32]* @a, i64 0, inrange i64 1)\n", ["inrange i64 1"]),
     ("expr.ptrtoint", "@a = global i32 0\n@g = global i64 ptrtoint (i32* @a to i64)\n", ["ptrtoint (i32* @a to i64)"]),
     ("expr.add-nsw", "@g = global i32 add nsw (i32 1, i32 2)\n", ["add nsw (i32 1, i32 2)"]),
@@ -174,6 +176,13 @@ NAMED_NONSTRUCT = [
     ("named.token-none", "%tok = type token\n\ndefine void @f() {\n\t%c = cleanuppad within none []\n\tret void\n}\n", ["cleanuppad within none"]),
     ("named.metadata", "%md = type metadata\n\ndeclare void @f(%md %0)\n", ["%md %0"]),
     ("named.label", "%lbl = type label\n", ["%lbl = type label"]),
+    # named (fixed and scalable) vector types used through vector constant expressions whose own result type is printed inline
+    ("named.svec-shuffle", "%sv = type <vscale x 4 x i32>\n\ndefine %sv @f() {\n\tret %sv shufflevector (%sv undef, %sv undef, %sv zeroinitializer)\n}\n", ["shufflevector (%sv undef, %sv undef, %sv zeroinitializer)"]),
+    ("named.fvec-shuffle", "%fv = type <4 x i32>\n\ndefine %fv @f() {\n\tret %fv shufflevector (%fv undef, %fv undef, %fv zeroinitializer)\n}\n", ["shufflevector (%fv undef, %fv undef, %fv zeroinitializer)"]),
+    ("named.svec-icmp", "%sv = type <vscale x 2 x i64>\n\ndefine <vscale x 2 x i1> @f() {\n\tret <vscale x 2 x i1> icmp eq (%sv undef, %sv zeroinitializer)\n}\n", ["icmp eq (%sv undef, %sv zeroinitializer)"]),
+    ("named.svec-fcmp", "%sf = type <vscale x 2 x double>\n\ndefine <vscale x 2 x i1> @f() {\n\tret <vscale x 2 x i1> fcmp oeq (%sf undef, %sf zeroinitializer)\n}\n", ["fcmp oeq (%sf undef, %sf zeroinitializer)"]),
+    ("named.svec-gep", "%si = type <vscale x 2 x i64>\n\n@a = global i8 0\n\ndefine <vscale x 2 x i8*> @f() {\n\tret <vscale x 2 x i8*> getelementptr (i8, i8* @a, %si zeroinitializer)\n}\n", ["getelementptr (i8, i8* @a, %si zeroinitializer)"]),
+    ("named.svec-inst", "%sv = type <vscale x 4 x i32>\n\ndefine void @f(%sv %a) {\n\t%c = icmp eq %sv %a, zeroinitializer\n\t%s = select <vscale x 4 x i1> %c, %sv %a, %sv %a\n\tret void\n}\n", ["select <vscale x 4 x i1> %c, %sv %a, %sv %a"]),
 ]
 
 INSTS = [
@@ -255,6 +264,8 @@ DI_RAW = [
 ]
 
 DI = [(n, "!0 = " + t + "\n" + FOOT, fr) for n, t, fr in DI_RAW] + [
+    # the same specialised nodes written INLINE as a tuple operand (not a numbered definition): printed in place, never as `!N`
+    (n + ".inline", "!0 = !{" + t + "}\n" + FOOT, fr + ["!{" + t.split("(")[0] + "("]) for n, t, fr in DI_RAW if not t.startswith("distinct ")] + [
     ("DICompileUnit.splitDebugInlining-false", "!0 = distinct !DICompileUnit(language: DW_LANG_C99, file: !1, splitDebugInlining: false)\n!1 = !DIFile(filename: \"a\", directory: \"b\")\n", ["splitDebugInlining: false"]),
     ("md.value-in-call", "declare void @llvm.dbg.value(metadata %0, metadata %1, metadata %2)\n\ndefine void @f(i32 %a) {\n\tcall void @llvm.dbg.value(metadata i32 %a, metadata !0, metadata !DIExpression(DW_OP_plus_uconst, 3))\n\tret void\n}\n\n!0 = !{}\n", ["metadata i32 %a", "DW_OP_plus_uconst, 3"]),
     ("md.attachments-multi", "@g = global i32 0, !a !0, !b !1\n\n!0 = !{}\n!1 = !{}\n", ["!a !0", "!b !1"]),
